@@ -1268,3 +1268,143 @@ func ruleSerialFields(r *Report) {
 		}
 	}
 }
+
+// ruleDecodeFresh (C05.fresh): Commit.ReadFrom *appends* the buffers it decodes to c.Updates. Unless
+// it empties that slice itself first, every call must be on a Commit that is fresh for that call:
+// a local created in the same loop iteration as the call, never decoded into before.
+func ruleDecodeFresh(r *Report) {
+	h := r.Rule("C05.fresh", "P", "a decoder that accumulates into its receiver is called on a fresh receiver: Commit.ReadFrom appends to c.Updates, so each call site passes a Commit allocated for that call (inside the loop that reads commits one after the other), unless ReadFrom empties the slice itself", 1)
+	rf := r.Anchor("(*commit.Commit).ReadFrom")
+	if rf == nil {
+		return
+	}
+	// does it accumulate, and does it reset first?
+	accumulates, resets := false, false
+	for _, f := range deepFuncs(rf) {
+		allInstrs(f, func(ins ssa.Instruction) {
+			st, ok := ins.(*ssa.Store)
+			if !ok {
+				return
+			}
+			fr, ok := fieldOf(st.Addr)
+			if !ok || fr.Struct != "commit.Commit" || fr.Field != "Updates" {
+				return
+			}
+			if call, isC := st.Val.(*ssa.Call); isC {
+				if b, isB := call.Call.Value.(*ssa.Builtin); isB && b.Name() == "append" {
+					if f2, isF := loadedField(call.Call.Args[0]); isF && f2.Struct == "commit.Commit" && f2.Field == "Updates" {
+						accumulates = true
+						return
+					}
+				}
+			}
+			// c.Updates = nil / c.Updates[:0] in the entry block of ReadFrom itself
+			if f == rf && st.Block() == rf.Blocks[0] {
+				if isConstNil(st.Val) {
+					resets = true
+				}
+				if sl, isSl := st.Val.(*ssa.Slice); isSl {
+					if hi, isC := constInt(sl.High); isC && hi == 0 {
+						resets = true
+					}
+				}
+			}
+		})
+	}
+	if !accumulates || resets {
+		h.OK("(*commit.Commit).ReadFrom", r.P.Pos(rf.Pos()), "does not accumulate into a used receiver")
+		return
+	}
+	n := 0
+	for fn := range r.P.modFunc {
+		if fn.Origin() != nil {
+			continue
+		}
+		for _, c := range callsTo(fn, true, "(*commit.Commit).ReadFrom") {
+			n++
+			cc, _, _ := callCommon(c)
+			al, isAl := norm(cc.Args[0]).(*ssa.Alloc)
+			key := fnName(fn)
+			if !isAl {
+				h.Bad(key, r.P.InstrPos(c), "Commit.ReadFrom appends to the receiver's Updates, and the receiver here is not a Commit created for this call")
+				continue
+			}
+			ok := true
+			inLoop := reachAvoiding(c.Block(), c.Block(), nil, nil)
+			if inLoop {
+				// the allocation is repeated with the call: it lies on the same cycle
+				same := al.Block() == c.Block() || (reachAvoiding(al.Block(), c.Block(), nil, nil) && reachAvoiding(c.Block(), al.Block(), nil, nil))
+				if !same {
+					ok = false
+				}
+			}
+			// no other decode into the same Commit
+			for _, o := range callsTo(fn, true, "(*commit.Commit).ReadFrom") {
+				if o == c {
+					continue
+				}
+				oc, _, _ := callCommon(o)
+				if norm(oc.Args[0]) == ssa.Value(al) {
+					ok = false
+				}
+			}
+			h.Check(ok, key, r.P.InstrPos(c), "decodes into a Commit created for this call", "the Commit decoded into is reused across calls (declared outside the loop): ReadFrom appends to Updates, so every later commit read back also carries the buffers of all earlier ones")
+		}
+	}
+	if n == 0 {
+		h.Unknown("callers", r.P.Pos(rf.Pos()), "no call of Commit.ReadFrom found in the library")
+	}
+}
+
+// ruleStateFlush (C14.flush): writeState writes through a buffering iostream.Writer. Every return
+// that can report success either returns the result of Flush itself or is dominated by a Flush in
+// writeState's own body whose error was tested — a Flush inside the per-block callback does not
+// count, it does not run for a collection without blocks.
+func ruleStateFlush(r *Report) {
+	h := r.Rule("C14.flush", "P", "writeState reports success only after the buffering writer was flushed in its own body and the flush error was returned: a flush that only happens inside the per-block callback never runs for an empty collection, and a failing destination then goes unnoticed", 1)
+	fn := r.Anchor("(*column.Collection).writeState")
+	if fn == nil {
+		return
+	}
+	flushes := callsTo(fn, false, "(*iostream.Writer).Flush")
+	ok := true
+	where := r.P.Pos(fn.Pos())
+	n := 0
+	for _, ret := range returnsOf(fn) {
+		vals := cellStoresBefore(ret)
+		if len(vals) == 0 {
+			continue
+		}
+		ev := norm(vals[len(vals)-1])
+		// (a) the flush result itself
+		if cl, isC := ev.(*ssa.Call); isC && calleeIs(&cl.Call, "(*iostream.Writer).Flush") {
+			n++
+			continue
+		}
+		// (b) an error that is known to be non-nil here
+		nonNil := edgeGuarded(ret.Block(), func(c ssa.Value) (bool, bool) {
+			x, nn, isN := nilTest(c)
+			if isN && sameExpr(x, ev) {
+				return true, nn
+			}
+			return false, false
+		})
+		if nonNil {
+			continue
+		}
+		// (c) success: a flush of this function dominates the return
+		dom := false
+		for _, f := range flushes {
+			if precedes(f, ret) {
+				dom = true
+			}
+		}
+		if dom {
+			n++
+			continue
+		}
+		ok = false
+		where = r.P.InstrPos(ret)
+	}
+	h.Check(ok && n >= 1, "(*column.Collection).writeState", where, "success ⇒ flushed here, flush error returned", "writeState can report success without having flushed the buffering writer in its own body: for a collection without blocks nothing reaches the destination and a failing destination is not noticed")
+}
